@@ -689,7 +689,12 @@ func (e *CoreExtension) functionRandom(args ...interface{}) (interface{}, error)
 	}
 
 	// Generate a random number in the range [min, max]
-	return min + rand.Intn(max-min+1), nil
+	span := max - min + 1
+	if span <= 0 {
+		// max-min+1 does not fit an int
+		return nil, errors.New("range between min and max is too large")
+	}
+	return min + rand.Intn(span), nil
 }
 
 func (e *CoreExtension) functionMax(args ...interface{}) (interface{}, error) {
@@ -857,7 +862,21 @@ func (e *CoreExtension) testSameAs(value interface{}, args ...interface{}) (bool
 	if len(args) == 0 {
 		return false, errors.New("same_as test requires an argument")
 	}
-	return value == args[0], nil
+	return sameAs(value, args[0]), nil
+}
+
+// sameAs is the identity comparison behind the same_as test. Values that Go cannot
+// compare with == (arrays, maps and anything holding them) are the same when they
+// have the same type and the same contents, as with === in Twig
+func sameAs(a, b interface{}) bool {
+	if a == nil || b == nil {
+		return a == nil && b == nil
+	}
+	va, vb := reflect.ValueOf(a), reflect.ValueOf(b)
+	if va.Comparable() && vb.Comparable() {
+		return a == b
+	}
+	return va.Type() == vb.Type() && reflect.DeepEqual(a, b)
 }
 
 func (e *CoreExtension) testDivisibleBy(value interface{}, args ...interface{}) (bool, error) {
